@@ -115,6 +115,6 @@ class RuleMd041(RulePlugin):
             ) and not html_block_contents.startswith("<h1>"):
                 self.report_next_token_error(context, self.__seen_html_block_start)
             self.__have_seen_first_token = True
-        elif not token.is_blank_line:
+        elif not token.is_blank_line and not token.is_end_of_stream:
             self.report_next_token_error(context, token)
             self.__have_seen_first_token = True
